@@ -10,3 +10,12 @@ open Femio.C08
 #print axioms C08_counterexample_overwrite
 #print axioms C08_counterexample_update_index
 #print axioms C08_update_spec
+#print axioms C08_hist_inv
+#print axioms C08_hist_reachable
+#print axioms C08_keepRef_noop
+#print axioms C08_write_through_by_id
+#print axioms C08_held_write_by_id
+#print axioms C08_collection_filter
+#print axioms C08_collection_set_attribute
+#print axioms C08_counterexample_iloc_scalar
+#print axioms C08_counterexample_slice_alias
